@@ -73,7 +73,6 @@ theorem po_keep (s : St) (w : Nat) (p' : WPc) (hreg : p'.reg = (s.pc w).reg)
 theorem inv_recvSwap (pol : Recycle) (s : St) (c id tag : Nat) (hi : Inv s) :
     Inv (step pol s (.recvSwap c id tag)) := by
   simp only [step]
-  split
   · split
     · next sl hp =>
       obtain ⟨h1, h2, h3, h4, h5, h6, h7, h8, h9, h10, h11⟩ := hi
@@ -107,7 +106,6 @@ theorem inv_recvSwap (pol : Recycle) (s : St) (c id tag : Nat) (hi : Inv s) :
       · pg
       · pg
     · exact hi
-  · exact hi
 
 theorem inv_closeSwap (pol : Recycle) (s : St) (c id : Nat) (hi : Inv s) :
     Inv (step pol s (.closeSwap c id)) := by
